@@ -178,3 +178,132 @@ Proof.
   - destruct k as [|[|[|k]]]; try lia;
       repeat (cbv -[thr_eq compress_on long_eq bot_ProtocolVersion]; rewrite ?thr_eq_refl, ?E); reflexivity.
 Qed.
+
+(* ------------------------------------------------------------------ the cut cases for the STOCK transcript *)
+Local Open Scope nat_scope.
+Lemma In_firstn_local {A} : forall n (l : list A) x, In x (firstn n l) -> In x l.
+Proof.
+  induction n as [|n IH]; intros l x H; [contradiction|].
+  destruct l as [|y t]; [contradiction|]. destruct H as [H|H]; [left; exact H|right; apply IH; exact H].
+Qed.
+Definition bstate (c : bcfg) (n : nat) (b : bot) (inc : list frame) : bot := snd (bot_feed c n b inc).
+Lemma bstate_S c n b inc :
+  bstate c (Datatypes.S n) b inc =
+  match bot_act c b with
+  | ASend _ b' => bstate c n b' inc
+  | ARecv h => match inc with f :: t => bstate c n (h f) t | [] => bot_eof b end
+  | AHalt => b
+  end.
+Proof.
+  unfold bstate, bot_feed. cbn [feed]. destruct (bot_act c b) as [f b'|h|]; [|destruct inc; reflexivity|reflexivity].
+  destruct (feed (bot_act c) bot_eof n b' inc). reflexivity.
+Qed.
+Lemma bstate_more c N b inc : bot_act c (bstate c N b inc) = AHalt -> forall n, N <= n -> bstate c n b inc = bstate c N b inc.
+Proof. intros H n Hn. unfold bstate, bot_feed in *. apply (feed_more bot (bot_act c) bot_eof (bot_eof_halts c) N b inc H n Hn). Qed.
+
+(* the registry frames, one read each *)
+Lemma bstate_regs c t nm uu : forall rs1 br n rest, regs_readable c rs1 ->
+  bstate c (length rs1 + n) {| b_ph := BConfig; b_thr := t; b_name := nm; b_uuid := uu; b_regs := br |}
+         (map (reg_frame t) rs1 ++ rest)
+  = bstate c n {| b_ph := BConfig; b_thr := t; b_name := nm; b_uuid := uu;
+                  b_regs := br ++ map (fun r => (fst r, decoded c r)) rs1 |} rest.
+Proof.
+  induction rs1 as [|[rid content] rs1 IH]; intros br n rest Hr.
+  - cbn [length map app Nat.add]. rewrite app_nil_r. reflexivity.
+  - inversion Hr as [|? ? [es H1] H2]; subst. cbn [fst snd] in H1.
+    cbn [length map app Nat.add]. rewrite bstate_S.
+    cbn [bot_act b_ph]. unfold b_recv, reg_frame, fr. cbn [f_thr b_thr]. rewrite thr_eq_refl.
+    unfold bot_config. cbn [f_id f_fields]. change (cbConfigRegistryData =? cbConfigCookieRequest)%Z with false.
+    change (cbConfigRegistryData =? cbConfigCustomPayload)%Z with false. change (cbConfigRegistryData =? cbConfigDisconnect)%Z with false.
+    change (cbConfigRegistryData =? cbConfigFinish)%Z with false. change (cbConfigRegistryData =? cbConfigKeepAlive)%Z with false.
+    change (cbConfigRegistryData =? cbConfigPing)%Z with false. change (cbConfigRegistryData =? cbConfigResetChat)%Z with false.
+    change (cbConfigRegistryData =? cbConfigRegistryData)%Z with true. cbv iota. cbn [fst snd]. rewrite H1.
+    unfold b_add_reg. cbn [b_ph b_thr b_name b_uuid b_regs]. rewrite IH by exact H2.
+    unfold decoded at 2. cbn [fst snd]. rewrite H1. rewrite <- app_assoc. reflexivity.
+Qed.
+
+Ltac solve_ifs :=
+  repeat match goal with |- context [?a <=? ?b] => destruct (Nat.leb_spec a b); try lia end; try reflexivity.
+Tactic Notation "bsteps" integer(n) :=
+  do n (rewrite bstate_S; cbv -[bstate thr_eq compress_on long_eq bot_ProtocolVersion map firstn reg_frame Nat.add app length decoded];
+        rewrite ?thr_eq_refl).
+
+(* the stock handler with ANY registries the bot can read: for EVERY prefix length of the clientbound
+   transcript ((set-compression;) profile; one frame per registry; finish) the outcome of the bot when the
+   server stops there: login-stage read error before Login Success is complete, configuration-stage read
+   error while any registry frame or Finish is missing, joined with the whole transcript *)
+Theorem cut_outcome_stock : forall (offl : list N -> list N) (bc : bcfg) (sc : scfg) (k : nat),
+  sc_cfg sc = CfgStock -> regs_readable bc (sc_registries sc) ->
+  let p := if compress_on (sc_threshold sc) then 1 else 0 in
+  let n := length (sc_registries sc) in
+  k <= p + n + 2 ->
+  b_ph (cut_outcome_bot bc k (join_s2c offl bc sc)) =
+    if k <=? p then BFailed stLoginRead else if k <=? p + n + 1 then BFailed stConfigRead else BJoined.
+Proof.
+  intros offl bc [thr chk cfg regs status] k Hc Hr. cbn [sc_cfg sc_threshold sc_registries] in *. subst cfg. cbv zeta.
+  unfold cut_outcome_bot. fold (bstate bc (2 + 2 * k + 1) (bot_join_init bc) (firstn k (join_s2c offl bc
+    {| sc_threshold := thr; sc_checker := chk; sc_cfg := CfgStock; sc_registries := regs; sc_status := status |}))).
+  unfold join_s2c, regs_of, eff_thr, profile_frame, eff_thr. cbn [sc_cfg sc_threshold sc_registries].
+  destruct (compress_on thr) eqn:E; intros Hk.
+  - (* with compression: p = 1 *)
+    destruct k as [|[|k]].
+    + cbn [firstn Nat.add Nat.mul]. unfold bot_join_init. bsteps 3. reflexivity.
+    + cbn [firstn app Nat.add Nat.mul]. unfold bot_join_init. bsteps 4. reflexivity.
+    + cbn [app]. cbn [firstn]. rewrite firstn_app, firstn_map.
+      destruct (Nat.le_gt_cases k (length regs)) as [Hj|Hj].
+      * (* k registry frames arrived, finish did not *)
+        replace (k - length (map (reg_frame thr) regs)) with 0 by (rewrite map_length; lia). cbn [firstn]. rewrite app_nil_r.
+        assert (Hh : b_ph (bstate bc (5 + (length (firstn k regs) + 1)) (bot_join_init bc)
+                 (fr (-1) cbLoginCompression [FVarInt thr] :: fr thr cbLoginGameProfile
+                    [FUUID (offl (bc_name bc)); FString (bc_name bc); FVarInt 0] :: map (reg_frame thr) (firstn k regs))) = BFailed stConfigRead).
+        { unfold bot_join_init. cbn [Nat.add]. bsteps 5.
+          rewrite <- (app_nil_r (map _ (firstn k regs))).
+          rewrite (bstate_regs bc thr) by (apply Forall_forall; intros x Hx; apply (proj1 (Forall_forall _ _) Hr); eapply In_firstn_local; eauto).
+          rewrite bstate_S. reflexivity. }
+        rewrite (bstate_more bc (5 + (length (firstn k regs) + 1))).
+        -- rewrite Hh. solve_ifs.
+        -- unfold bot_act. rewrite Hh. reflexivity.
+        -- rewrite firstn_length. lia.
+      * (* everything arrived *)
+        assert (k = Datatypes.S (length regs)) by lia. subst k.
+        rewrite firstn_all2 by lia. replace (Datatypes.S (length regs) - length (map (reg_frame thr) regs)) with 1 by (rewrite map_length; lia).
+        cbn [firstn].
+        assert (Hh : b_ph (bstate bc (5 + (length regs + 3)) (bot_join_init bc)
+                 (fr (-1) cbLoginCompression [FVarInt thr] :: fr thr cbLoginGameProfile
+                    [FUUID (offl (bc_name bc)); FString (bc_name bc); FVarInt 0] :: map (reg_frame thr) regs ++ [fr thr cbConfigFinish []])) = BJoined).
+        { unfold bot_join_init. cbn [Nat.add]. bsteps 5.
+          rewrite (bstate_regs bc thr) by exact Hr. bsteps 3. reflexivity. }
+        rewrite (bstate_more bc (5 + (length regs + 3))).
+        -- rewrite Hh. solve_ifs.
+        -- unfold bot_act. rewrite Hh. reflexivity.
+        -- lia.
+  - (* without compression: p = 0 *)
+    destruct k as [|k].
+    + cbn [firstn Nat.add Nat.mul]. unfold bot_join_init. bsteps 3. reflexivity.
+    + cbn [app]. cbn [firstn]. rewrite firstn_app, firstn_map.
+      destruct (Nat.le_gt_cases k (length regs)) as [Hj|Hj].
+      * replace (k - length (map (reg_frame (-1)) regs)) with 0 by (rewrite map_length; lia). cbn [firstn]. rewrite app_nil_r.
+        assert (Hh : b_ph (bstate bc (4 + (length (firstn k regs) + 1)) (bot_join_init bc)
+                 (fr (-1) cbLoginGameProfile [FUUID (offl (bc_name bc)); FString (bc_name bc); FVarInt 0]
+                  :: map (reg_frame (-1)) (firstn k regs))) = BFailed stConfigRead).
+        { unfold bot_join_init. cbn [Nat.add]. bsteps 4.
+          rewrite <- (app_nil_r (map _ (firstn k regs))).
+          rewrite (bstate_regs bc (-1)) by (apply Forall_forall; intros x Hx; apply (proj1 (Forall_forall _ _) Hr); eapply In_firstn_local; eauto).
+          rewrite bstate_S. reflexivity. }
+        rewrite (bstate_more bc (4 + (length (firstn k regs) + 1))).
+        -- rewrite Hh. solve_ifs.
+        -- unfold bot_act. rewrite Hh. reflexivity.
+        -- rewrite firstn_length. lia.
+      * assert (k = Datatypes.S (length regs)) by lia. subst k.
+        rewrite firstn_all2 by lia. replace (Datatypes.S (length regs) - length (map (reg_frame (-1)) regs)) with 1 by (rewrite map_length; lia).
+        cbn [firstn].
+        assert (Hh : b_ph (bstate bc (4 + (length regs + 3)) (bot_join_init bc)
+                 (fr (-1) cbLoginGameProfile [FUUID (offl (bc_name bc)); FString (bc_name bc); FVarInt 0]
+                  :: map (reg_frame (-1)) regs ++ [fr (-1) cbConfigFinish []])) = BJoined).
+        { unfold bot_join_init. cbn [Nat.add]. bsteps 4.
+          rewrite (bstate_regs bc (-1)) by exact Hr. bsteps 3. reflexivity. }
+        rewrite (bstate_more bc (4 + (length regs + 3))).
+        -- rewrite Hh. solve_ifs.
+        -- unfold bot_act. rewrite Hh. reflexivity.
+        -- lia.
+Qed.
